@@ -14,9 +14,10 @@
 EXTENDS Integers, Sequences, FiniteSets, TLC, Json
 
 CONSTANTS Cls, MsgKinds, Outs, DelayCls, Vals, Depth, Variant, MaxObjs
-\* Cls subset of {"P","C","T"}: P = instructor subclass of Feedback, C = subclass of P, T = a tool feedback
+\* Cls subset of {"P","C","N","T"}: P = instructor subclass of Feedback, C = subclass of P, T = a tool feedback
 Attrs == {"template", "title"}
-Parent(c) == IF c = "C" THEN "P" ELSE "none"
+\* N = another subclass of P whose own class body sets title = None, masking P's title
+Parent(c) == IF c \in {"C", "N"} THEN "P" ELSE "none"
 
 VARIABLES objs,      \* sequence of feedback objects [cls, mk, out, status, truth, list, msg]
           active, ignored,   \* report.feedback / report.ignored_feedback as sequences of object ids
@@ -124,11 +125,16 @@ Restore(at, bk, cs) ==
     IF cs = <<>> THEN [attr |-> at, backup |-> bk]
     ELSE LET c == Head(cs)
              t == IF table[c] = "none" THEN c ELSE table[c]
-             at1 == [at EXCEPT ![c] = [a \in Attrs |-> IF bk[t][a] # "none" THEN bk[t][a] ELSE at[c][a]]]
+             \* Variant restore_none_deletes: a backed-up value of None is "restored" by deleting the attribute from the
+             \* class, which uncovers the parent's current value when the class had defined None itself (N.title)
+             at1 == [at EXCEPT ![c] = [a \in Attrs |->
+                        IF bk[t][a] = "none" THEN at[c][a]
+                        ELSE IF Variant = "restore_none_deletes" /\ c = "N" /\ a = "title" /\ bk[t][a] = "orig:N"
+                             THEN at[Parent(c)][a] ELSE bk[t][a]]]
              bk1 == [bk EXCEPT ![t] = [a \in Attrs |-> "none"]]
          IN Restore(at1, bk1, Tail(cs))
-OrderP == LET s == <<"P", "C", "T">> IN SelectSeq(s, LAMBDA c : c \in overridden)
-OrderC == LET s == <<"C", "P", "T">> IN SelectSeq(s, LAMBDA c : c \in overridden)
+OrderP == LET s == <<"P", "C", "N", "T">> IN SelectSeq(s, LAMBDA c : c \in overridden)
+OrderC == LET s == <<"C", "N", "P", "T">> IN SelectSeq(s, LAMBDA c : c \in overridden)
 
 ClearEffects(order) ==
     LET r == Restore(attr, backup, order) IN
